@@ -57,6 +57,19 @@ def step (t : List String) : String :=
           let rgb : Chan → Nat → Nat → Rat := fun ch => fn2 n v (3 + chanIdx ch * m * n)
           fmtList (fun ch => fmtRats (tab2 m n (postscale postscaleGain (gain3Of v) rgb ch))) [Chan.red, Chan.green, Chan.blue]
       | _, _, _ => "bad-op"
+  | "exposeshape" :: fs :: rest =>
+      match fs.toNat?, parseNats rest with
+      | some fr, some shape => fmtList toString (exposeOutShape fr shape)
+      | _, _ => "bad-op"
+  | "binview" :: ds :: rest =>
+      -- binview d s1..sd f1..fd : shapes of the bindown view and of the tile broadcast
+      match ds.toNat?, parseNats rest with
+      | some d, some v =>
+          if v.length != 2 * d then "bad-op" else
+          let sh := (v.take d).map Int.ofNat
+          let f := (v.drop d).map Int.ofNat
+          fmtList toString (binViewShape sh f ++ tileViewShape sh f)
+      | _, _ => "bad-op"
   | "saferatio" :: rest =>
       -- saferatio max1 sat1 max2 sat2 ... : the descaling ratio of the safe white balance after all planes
       match parseRats rest with
